@@ -23,6 +23,7 @@ def main():
                       dict(theorem_or_correspondence="go build of /verif/go against /repo", error=err[-4000:]),
                       no_input=True)
         sys.exit(res.finish())
+    res.oblige("verification harness and extractors build against /repo's working tree", True, "")
     mod.check(res)
     if tier == "thorough" and not os.environ.get("VERIF_NO_COQCHK"):
         ok, axioms, tail = vlib.coqchk(a.prop)
